@@ -27,6 +27,10 @@ type descriptor struct {
 	Taken   int          `json:"taken"` // xor: index of the branch taken
 	Script  []drive.Stim `json:"script"`
 	Perturb uint64       `json:"perturb"`
+	// PreStart / Early: number of non-matching events delivered before StartAll /
+	// immediately after it returned (before the first flow has left the start event)
+	PreStart int `json:"preStart"`
+	Early    int `json:"early"`
 }
 
 func build(d descriptor) (*gen.Graph, map[string]any) {
@@ -110,6 +114,10 @@ func draw(rt *rapid.T) descriptor {
 		d.Catches = append(d.Catches, catchSpec{Def: drawDef(rt), PreTask: rapid.Bool().Draw(rt, "pre")})
 	}
 	d.Taken = rapid.IntRange(0, n-1).Draw(rt, "taken")
+	if !rec.Exclude("C11-F2") {
+		d.PreStart = rapid.SampledFrom([]int{0, 0, 1, 2, 3}).Draw(rt, "preStart")
+	}
+	d.Early = rapid.SampledFrom([]int{0, 0, 1, 2, 4}).Draw(rt, "early")
 	maxEvents := 8
 	if rec.Exclude("C11-F1") {
 		// finding C11-F1: a catch event that is not (yet) reached buffers at most 3 events, the 4th delivery blocks
@@ -177,6 +185,12 @@ func draw(rt *rapid.T) descriptor {
 func run(d descriptor) *drive.ScriptOutcome {
 	g, vars := build(d)
 	c := &drive.ScriptCase{Graph: g, Lang: "expr", Vars: vars, Script: d.Script, Perturb: d.Perturb, Drain: false}
+	for i := 0; i < d.PreStart; i++ {
+		c.PreStart = append(c.PreStart, model.Ev{Kind: "signal", Ref: "zz"})
+	}
+	for i := 0; i < d.Early; i++ {
+		c.Early = append(c.Early, model.Ev{Kind: "message", Ref: "zz"})
+	}
 	return drive.RunScript(c)
 }
 
@@ -195,6 +209,12 @@ func classify(d descriptor, out *drive.ScriptOutcome) (cls []string, nt bool) {
 		}
 	}
 	cls = append(cls, "shape="+d.Shape, fmt.Sprintf("events=%d", events))
+	if d.PreStart > 0 {
+		cls = append(cls, "eventsBeforeStart")
+	}
+	if d.Early > 0 {
+		cls = append(cls, "eventsRightAfterStart")
+	}
 	if fired > 0 {
 		cls = append(cls, "fired")
 	}
